@@ -300,6 +300,8 @@ def replay_failure(contract, ob, result):
             raise ReplayError(f'model has no value for {name}')
         typed.append(model_to_typed(result.model[name], spec))
     native = call_native(contract.target, typed, py_func=(ob.kind in ('index', 'store')))
+    if native.get('input_error'):
+        raise ReplayError('the counter-model could not be turned into a real input: ' + native['input_error'])
     chk = check_concrete(contract, ob.config, typed, native)
     confirmed = bool(chk['violated']) and chk['requires_ok'] is not False
     if ob.kind in ('index', 'store') and not native.get('ok') and native.get('exc') == 'IndexError' \
